@@ -38,6 +38,7 @@ META = {
         "order is the reverse of OPEN order; all CLOSEs come after the end of the task function (or the failing open) and "
         "before SAVE and before ACK; the exception seen at teardown is the task's exception iff propagation is on and the "
         "outcome failed. distinct_nontrivial = distinct terminal per-message logs."
+        " Shared exception object: two executions fail with the very same exception instance (two waiters of one failed future) and finish functions and teardowns in every order."
     ),
     "assumptions": [
         "dependency functions are generated real functions recording open/close; taskiq_dependencies 1.5.7 is the pinned resolver (outside /repo)",
@@ -212,6 +213,18 @@ def scenarios(tier: str) -> List[Dict[str, Any]]:
                     out.append({"A": 2, "P": 1, "N": None, "stream": "finite", "stop": False, "level": lvl,
                                 "propagate": True, "ack_type": "when_saved", "deps": deps,
                                 "msgs": [_msg("return" if o1 == "fail" else o1, "sync"), _msg("return" if o2 == "fail" else o2, "sync")]})
+    # two executions failing with the very same exception object (two waiters of one failed future), finishing
+    # their functions and their teardowns in every order
+    for shape in (("chain2", "2flat") if tier == "quick" else ("chain2", "2flat", "chain3")):
+        k = len(SHAPES[shape][1])
+        for styles in (("agen",) * k, ("acm", "gen", "agen")[:k]):
+            for prop in (True, False):
+                deps = _deps(shape, styles, gated=True)
+                for nd in deps["nodes"].values():
+                    nd["gate"] = False  # suspension points only in the function and in the finalisers
+                msgs = [dict(_msg("raise", "sync"), body="gated", exc_shared=True) for _ in range(2)]
+                out.append({"A": 2, "P": 1, "N": None, "stream": "finite", "stop": False, "level": 0,
+                            "propagate": prop, "ack_type": "when_saved", "deps": deps, "msgs": msgs})
     # shutdown: stop requested and wait_tasks_timeout elapsing while an execution with opened dependencies
     # is still running; whatever the worker does with that execution, an opened dependency that has not been
     # finalised when listen() returns must not have been abandoned by the receiver (it may still be running)
